@@ -57,6 +57,7 @@ struct Session {
     double fixedStep = -1, acc = -1; // -1 = default
     int sysKind = 0; double k = 1, q0 = 1, u0 = 0;
     std::vector<WSpec> ws;
+    bool directed = false;           // produced by the directed generator (selects the predicate key class)
 };
 struct Op { char kind; double report = 0, sched = 0; int lowered = 0, terminate = 0; bool viaStepBy = false; double iv = 0, lim = 0; bool replayed = false; };
 
@@ -104,6 +105,7 @@ static const double Inf = Infinity;
 
 // Runs a session.  If `ops` is non-null they are replayed verbatim, otherwise generated from rng.
 static void runSession(const Session& S, vh::Rng* rng, const std::vector<Op>* ops, int ncalls) {
+    const bool directed = S.directed;
     Built B;
     buildSystem(S, B);
     State state = B.system.realizeTopology();
@@ -163,6 +165,7 @@ static void runSession(const Session& S, vh::Rng* rng, const std::vector<Op>* op
                 // an infinite report time is only legal here if something else bounds the call
                 if (!std::isfinite(op.report) && !std::isfinite(op.sched) && !S.hasFinal && !S.retEvery && S.stepLimit == 0)
                     op.report = lo + dt;
+                if (isCPodes && !std::isfinite(op.report)) op.report = lo + dt;   // CPODES needs a finite tout
                 op.viaStepBy = rng->below(8) == 0 && std::isfinite(op.report) && std::isfinite(op.sched);
                 if (op.viaStepBy) {   // stepBy(interval, limit) == stepTo(t+interval, t+limit): log what stepBy will compute
                     op.iv = op.report - tNow; op.lim = op.sched - tNow;
@@ -244,7 +247,7 @@ static void runSession(const Session& S, vh::Rng* rng, const std::vector<Op>* op
         L.i(S.retEvery).i(S.stepLimit).i(S.allowInterp);
         L.d(S.fixedStep).d(S.acc).i(S.sysKind).d(S.k).d(S.q0).d(S.u0).i((long long)S.ws.size());
         for (auto& w : S.ws) L.i(w.kind).d(w.a).d(w.b).i(w.mask);
-        L.s("|");
+        L.s("dir").i(S.directed).s("|");
         for (auto& c : log) {
             if (c.op.kind == 'r') L.s("r").i(c.op.lowered).i(c.op.terminate);
             else L.s(c.op.viaStepBy ? "b" : "s").d(c.op.report).d(c.op.sched).i(c.nSteps).d(c.tAdv).i(c.ev).d(c.ev == 1 ? c.tLow : 0.0);
@@ -252,28 +255,40 @@ static void runSession(const Session& S, vh::Rng* rng, const std::vector<Op>* op
         L.emit();
     }
     const std::string nm = INTEG_NAMES[S.integ];
-    double worstPending = 0, worstMono = 0, worstAdv = 0, worstExact = 0, worstWin = 0, worstEos = 0, worstRefuse = 0;
+    // predicate keys: <family>.stepTo.<inputclass>.<pred>; the two CPodes variants share CPodesIntegratorRep::stepTo
+    const std::string fam = isCPodes ? "CPodes" : directed ? "AbstractIntegratorRep" : nm;
+    const std::string cls = (S.hasFinal && S.fin == S.t0) ? "finalAtStart" : S.allowInterp == 0 ? "noInterp"
+                            : S.retEvery ? "retEvery" : "plain";
+    const std::string kp = fam + ".stepTo." + ((directed && !isCPodes) ? "directed" : cls) + ".";
+    double worstPending = 0, worstMono = 0, worstAdv = 0, worstExact = 0, worstWin = 0, worstEos = 0, worstRefuse = 0, worstRepWin = 0;
     int nEos = 0; bool eosSeen = false;
     double prevTime = S.t0;
     if (isCPodes) vh::O("cp").i((long long)log.size()).emit();
+    size_t idx = 0;
     for (auto& c : log) {
+        ++idx;
         if (c.op.kind == 'r') {
             if (!isCPodes) vh::O("r").d(c.time).d(c.tAdv).i(c.interp).i(c.over).emit();
+            else std::printf("# cp r %.17g %.17g %d %d\n", c.time, c.tAdv, (int)c.interp, (int)c.over);
             worstMono = std::max(worstMono, prevTime - c.time);
             prevTime = c.time;
+            vh::D(nm + ".reinit");
             continue;
         }
         if (c.exc) {
-            if (!isCPodes) vh::O("c").s("EXC").emit();
-            // an exception is legal only as the refusal after EndOfSimulation / termination
-            if (!(eosSeen || c.over)) worstRefuse = 1;
-            vh::D(nm + ".refused");
+            if (!isCPodes) vh::O("c").s("EXC").emit(); else std::printf("# cp EXC\n");
+            // legal as the refusal after EndOfSimulation / requested termination; anything else is an unexpected
+            // failure of a legal request (for the modelled family the model then disagrees; for CPodes it is counted)
+            vh::D(nm + ((eosSeen || c.over) ? ".refused" : ".unexpected_exception." + cls));
             continue;
         }
         if (!isCPodes) vh::O("c").i(c.status).d(c.time).d(c.tAdv).i(c.interp).i(c.over).emit();
         else std::printf("# cp %d %.17g %.17g %d %d\n", c.status, c.time, c.tAdv, (int)c.interp, (int)c.over);
         vh::D(nm + ".status" + std::to_string(c.status) + (c.interp ? "i" : ""));
-        if (eosSeen) worstRefuse = 1;    // a call after EndOfSimulation returned normally
+        if (c.nSteps >= 2) vh::D(nm + ".path.multistep");
+        if (c.ev == 1 && c.status != Integrator::ReachedEventTrigger) vh::D(nm + ".path.event_hidden_behind_report");
+        if (c.status == Integrator::ReachedReportTime && c.time != c.op.report) vh::D(nm + ".path.report_status_at_final");
+        if (eosSeen) worstRefuse = 1;    // a call after EndOfSimulation returned normally instead of being refused
         const double pend = std::min(c.op.report, std::min(c.op.sched, fin));
         worstPending = std::max(worstPending, c.time - pend);
         worstMono = std::max(worstMono, prevTime - c.time);
@@ -287,20 +302,21 @@ static void runSession(const Session& S, vh::Rng* rng, const std::vector<Op>* op
             if (!c.over) worstEos = 1;
         }
         if (c.hasWindow) {
-            const double xs[3] = {c.op.report, c.op.sched, fin};
-            for (double x : xs) if (c.wLow < x && x < c.wHigh) worstWin = 1;
+            if ((c.wLow < c.op.sched && c.op.sched < c.wHigh) || (c.wLow < fin && fin < c.wHigh)) worstWin = 1;
             if (!(c.wLow < c.wHigh) || c.time != c.wLow || c.tAdv != c.wHigh) worstWin = std::max(worstWin, 2.0);
+            if (c.wLow < c.op.report && c.op.report < c.wHigh) worstRepWin = 1;
         }
         prevTime = c.time;
     }
     if (nEos > 1) worstEos = 1;
-    vh::P("returned_time_le_pending", nm + ".stepTo.le_pending", worstPending, 0);
-    vh::P("time_monotone", nm + ".stepTo.monotone", worstMono, 0);
-    vh::P("advanced_never_passes_sched_or_final", nm + ".stepTo.advanced_le_limits", worstAdv, 0);
-    vh::P("stop_is_exact", nm + ".stepTo.exact_stop", worstExact, 0);
-    vh::P("eos_once_at_final", nm + ".stepTo.eos", worstEos, 0);
-    vh::P("refused_after_eos", nm + ".stepTo.refused", worstRefuse, 0);
-    vh::P("no_time_inside_event_window", nm + ".stepTo.window", worstWin, 0);
+    vh::P("returned_time_le_pending", kp + "le_pending", worstPending, 0);
+    vh::P("time_monotone", kp + "monotone", worstMono, 0);
+    vh::P("advanced_never_passes_sched_or_final", kp + "advanced_le_limits", worstAdv, 0);
+    vh::P("stop_is_exact", kp + "exact_stop", worstExact, 0);
+    vh::P("eos_once_at_final", kp + "eos", worstEos, 0);
+    vh::P("refused_after_eos", kp + "refused", worstRefuse, 0);
+    vh::P("no_sched_or_final_inside_event_window", kp + "window", worstWin, 0);
+    vh::P("no_report_inside_event_window", kp + "report_in_window", worstRepWin, 0);
 }
 
 static Session randomSession(vh::Rng& r, int integ) {
@@ -314,6 +330,7 @@ static Session randomSession(vh::Rng& r, int integ) {
     S.fixedStep = r.below(3) == 0 ? r.range(0.005, 0.2) : -1;
     S.acc = r.below(2) == 0 ? std::pow(10.0, -r.range(1.5, 6.0)) : -1;
     S.sysKind = r.below(4) == 0 ? 1 : 0;
+    if (integ >= 8) S.fixedStep = -1;      // CPODES cannot run with min step == max step (cpodes->step() fails): option not supported
     S.k = r.range(0.5, 20.0); S.q0 = r.signedMag(0.2, 1.5); S.u0 = r.range(-1, 1);
     int nw = r.below(3) == 0 ? 0 : 1 + r.below(3);
     for (int i = 0; i < nw; ++i) {
@@ -352,6 +369,7 @@ static bool parseSession(const std::string& line, Session& S, std::vector<Op>& o
         WSpec w; w.kind = std::atoi(t[p++].c_str()); w.a = vh::unhex(t[p++]); w.b = vh::unhex(t[p++]); w.mask = std::atoi(t[p++].c_str());
         S.ws.push_back(w);
     }
+    if (t[p] == "dir") { S.directed = std::atoi(t[p + 1].c_str()) != 0; p += 2; }
     if (t[p++] != "|") return false;
     while (p < t.size()) {
         Op op;
@@ -360,6 +378,54 @@ static bool parseSession(const std::string& line, Session& S, std::vector<Op>& o
         ops.push_back(op);
     }
     return true;
+}
+
+// ------------------------------------------------------------------ directed scenario (finding, see notes/C19.md)
+// A report time handed to a LATER stepTo call may fall strictly inside the event window the integrator then
+// reports: the internal step that localised the event was taken while an earlier report (<= tLow) was pending.
+// Pass A finds the window with a regular reporting loop; pass B repeats the same calls but asks for the
+// mid-window time in the call that reveals the event.
+static void directedSession(vh::Rng& r, int integ) {
+    Session S; S.integ = integ; S.directed = true;
+    S.acc = std::pow(10.0, -r.range(2.0, 5.0));
+    S.k = r.range(0.5, 10.0); S.q0 = r.signedMag(0.2, 1.5); S.u0 = r.range(-1, 1);
+    WSpec w; w.kind = 0; w.a = r.range(0.03, 0.4); w.b = 0; w.mask = 3; S.ws.push_back(w);
+    const double dtr = r.range(0.001, 0.004);
+    // pass A (silent)
+    std::vector<Op> ops; double wl = 0, wh = 0; bool hidden = false;
+    {
+        Built B; buildSystem(S, B);
+        State state = B.system.realizeTopology();
+        state.updTime() = S.t0; state.updQ()[0] = S.q0; state.updU()[0] = S.u0;
+        B.integ.reset(makeInteg(S.integ, B.system));
+        B.integ->setAccuracy(S.acc);
+        B.integ->initialize(state);
+        double rep = dtr;
+        for (int i = 0; i < 2000; ++i) {
+            Op op; op.kind = 's'; op.report = rep; op.sched = Inf; op.replayed = true;
+            const int sb = B.integ->getNumStepsTaken();
+            Integrator::SuccessfulStepStatus st = B.integ->stepTo(op.report, op.sched);
+            ops.push_back(op);
+            if (st == Integrator::ReachedEventTrigger) {
+                Vec2 win = B.integ->getEventWindow(); wl = win[0]; wh = win[1];
+                hidden = (B.integ->getNumStepsTaken() == sb);
+                break;
+            }
+            if (st == Integrator::ReachedReportTime) rep += dtr;
+        }
+    }
+    if (!hidden || ops.size() < 2) return;
+    const double mid = wl + 0.5 * (wh - wl);
+    if (!(wl < mid && mid < wh) || !(mid >= ops[ops.size() - 2].report)) return;
+    switch (r.below(3)) {
+        case 0: ops.back().report = mid; break;                       // strictly inside the window (the finding)
+        case 1: {                                                      // exactly tLow: must be served as a report first,
+            ops.back().report = wl;                                   // then the trigger is returned by the next call
+            Op more = ops.back(); more.report = wl + (r.coin() ? 0.0 : 0.01); ops.push_back(more);
+            Op more2 = ops.back(); more2.report = wh + 0.01; ops.push_back(more2); break; }
+        default: ops.back().report = wh; break;                       // exactly tHigh
+    }
+    runSession(S, nullptr, &ops, 0);
 }
 
 int main(int argc, char** argv) {
@@ -373,6 +439,20 @@ int main(int argc, char** argv) {
         return 0;
     }
     vh::Rng rng(a.seed * 7919 + 17);
+    if (a.mode == "directed") {
+        for (long i = 0; i < a.n / 10 + 20; ++i) {
+            if (i % 10 < 8) { directedSession(rng, (int)(i % 10)); continue; }
+            // CPodes, interpolation off, final time set: a request beyond the final time after one before it
+            Session S; S.integ = (int)(i % 10); S.directed = true; S.allowInterp = 0; S.hasFinal = true;
+            S.fin = rng.range(0.8, 1.5); S.k = rng.range(0.5, 10.0); S.q0 = 1; S.u0 = 0;
+            std::vector<Op> ops(4);
+            const double r1 = rng.range(0.1, 0.6);
+            for (auto& o : ops) { o.kind = 's'; o.replayed = true; o.sched = Inf; }
+            ops[0].report = r1; ops[1].report = r1; ops[2].report = S.fin + rng.range(0.1, 1.0); ops[3].report = ops[2].report;
+            runSession(S, nullptr, &ops, 0);
+        }
+        return 0;
+    }
     for (long i = 0; i < a.n; ++i) {
         int integ = (int)(i % NINTEG);
         Session S = randomSession(rng, integ);
